@@ -15,7 +15,8 @@ FMT_DTYPES = {
     "tfrec": ["uint8", "int8", "int32", "int64", "float16", "float32", "float64", "bytes", "str"],
 }
 COMPRESSIONS = {"fb": ["", "BZ2", "GZIP", "LZMA", "LZ4", "ZLIB", "ZSTD"], "npz": ["", "ZIP"], "tfrec": ["", "GZIP", "ZLIB"]}
-READERS = {"fb": ["sync", "concurrent", "async", "rust", "tf"], "npz": ["sync", "concurrent", "async", "tf"], "tfrec": ["sync", "tf"]}
+READERS = {"fb": ["sync", "concurrent", "async", "rust", "tf", "sync_shuffled", "concurrent_shuffled", "async_shuffled"],
+           "npz": ["sync", "concurrent", "async", "tf", "concurrent_shuffled", "async_shuffled"], "tfrec": ["sync", "tf"]}
 SHAPES = [[], [1], [3], [2, 3], [3, 1, 2], [2, 1, 2, 2], [1, 1], [4, 2]]
 PRES = ["C", "C", "F", "strided", "reversed", "transposed", "be", "readonly", "mutated", "narrow", "scalar", "list"]
 # float layouts: (exponent bits, mantissa bits)
@@ -155,6 +156,12 @@ def gen_jobs(ctx):
             attrs.append({"name": f"a{i}", "dtype": dt, "shape": [] if dt in ("bytes", "str") else rng.choice(SHAPES)})
         exs = [[gen_value(rng, fmt, a, rng.choice(PRES)) for a in attrs] for _ in range(rng.choice([1, 3, 4]))]
         jobs.append({"format": fmt, "compression": rng.choice(COMPRESSIONS[fmt]), "eps": rng.choice([1, 2, 3]), "attrs": attrs, "examples": exs})
+    # shards well above 1 MiB (a float64[400, 400] value is 1.28 MB): codecs may treat large inputs differently (blocks, frames, members) and every
+    # reader, the Rust one included, has to cope; not sent through the Coq model (the value alone would be a 160 000-element literal)
+    for comp in (COMPRESSIONS["fb"] if ctx.tier == "thorough" else ["GZIP", "LZ4", "ZLIB"]):
+        big = [(i * 2654435761 + 12345) % (1 << 52) | (1023 << 52) for i in range(160000)]
+        jobs.append({"format": "fb", "compression": comp, "eps": 2, "big": True, "attrs": [{"name": "a0", "dtype": "float64", "shape": [400, 400]}],
+                     "examples": [[{"pres": "C", "bits": big}], [{"pres": "C", "bits": big[::-1]}]]})
     for j in jobs:
         rs = list(READERS[j["format"]])
         if j["format"] == "npz" and any(a["dtype"] in ("bytes", "str") for a in j["attrs"]):
@@ -269,7 +276,7 @@ def check_jobs(ctx, jobs, broken):
                 expected[(ji, ei, ai)] = ("bits", bits)
     # fb: model bytes vs stored bytes
     for ji, (job, r) in enumerate(zip(jobs, res)):
-        if job["format"] != "fb" or r.get("write_error") or not isinstance(r.get("stored"), list):
+        if job["format"] != "fb" or r.get("write_error") or not isinstance(r.get("stored"), list) or job.get("big"):
             continue
         for ei, ex in enumerate(job["examples"]):
             for ai, (a, p) in enumerate(zip(job["attrs"], ex)):
@@ -322,6 +329,15 @@ def check_jobs(ctx, jobs, broken):
                 continue
             if len(got) != len(job["examples"]):
                 ctx.report(f"{fmt}:{reader}:count", f"{fmt}: reader {reader} returned {len(got)} examples, {len(job['examples'])} were written", {"job": job, "reader": reader})
+                continue
+            if reader.endswith("_shuffled"):
+                # order unknown: the multiset of examples must be the one the unshuffled reader of the same interface family returns (itself compared value by value)
+                ref = r["read"].get("sync")
+                if isinstance(ref, list) and sorted(json.dumps(x, sort_keys=True) for x in got) != sorted(json.dumps(x, sort_keys=True) for x in ref):
+                    bad = [x for x in got if x not in ref]
+                    ctx.report(f"{fmt}:{reader}:values", f"{fmt} {job['compression'] or 'uncompressed'}: reader {reader} (shuffle=100, file_parallelism=3) returned examples that were never written "
+                                                         f"or returned some twice, e.g. {json.dumps(bad[:1])[:200]}", {"job": job, "reader": reader})
+                stats["reads_compared"] += len(got)
                 continue
             for ei, ex in enumerate(job["examples"]):
                 for ai, (a, p) in enumerate(zip(job["attrs"], ex)):
@@ -485,7 +501,7 @@ def run(ctx):
         b = broken[0]
         ctx.report(f"broken:{b.what}", b.what, {"unchecked": b.what, "detail": b.detail[-3000:]}, found_input=False)
     ctx.sample(jobs[0])
-    ctx.sample(jobs[-1])
+    ctx.sample([j for j in jobs if not j.get("big")][-1])
     ctx.coverage.update({
         "obligations": proof["obligations"] if proof else 11, "discharged": proof["discharged"] if proof else 0,
         "theorems": proof["theorems"] if proof else [],
